@@ -11,7 +11,11 @@ from fastparquet import parquet_thrift
 
 # ----------------------------------------------------------------------- S4 ---
 class _PFs:
+    """handle shim: `statistics` is the per-handle cache the real property returns (one dict object, reused)"""
     columns = ["a"]
+
+    def __init__(self, mins=(), maxs=()):
+        self.statistics = {"min": {"a": list(mins)}, "max": {"a": list(maxs)}}
 
 
 def h_sorted_columns(mn0: Optional[int], mx0: Optional[int], mn1: Optional[int], mx1: Optional[int],
@@ -28,7 +32,7 @@ def h_sorted_columns(mn0: Optional[int], mx0: Optional[int], mn1: Optional[int],
     saved = api.statistics
     api.statistics = lambda pf: {"min": {"a": list(mins)}, "max": {"a": list(maxs)}}
     try:
-        out = api.sorted_partitioned_columns(_PFs())
+        out = api.sorted_partitioned_columns(_PFs(mins, maxs))
     finally:
         api.statistics = saved
     known = all(x is not None for x in mins + maxs)
@@ -43,21 +47,102 @@ def replay_h_sorted_columns(mn0, mx0, mn1, mx1, mn2, mx2, n):
     import pandas as pd
     import fastparquet
     mins, maxs = [mn0, mn1, mn2][:n], [mx0, mx1, mx2][:n]
-    if any(x is None for x in mins + maxs):
-        return None, "missing bounds cannot be produced per row group by the concrete driver"
     vals, offs = [], []
     for a, b in zip(mins, maxs):
         offs.append(len(vals))
-        vals += [a, b]
+        lo = a if a is not None else (b if b is not None else 0)
+        hi = b if b is not None else lo
+        vals += [lo, hi]
     d = tempfile.mkdtemp(prefix="c04-")
     try:
         fn = os.path.join(d, "t.parq")
         fastparquet.write(fn, pd.DataFrame({"a": vals}), row_group_offsets=offs, stats=True)
+        if any(x is None for x in mins + maxs):
+            # a chunk statistic without one bound: edit the footer (fastparquet's writer always writes both)
+            from vf.pyshim.realfile import rewrite_footer
+
+            def mutate(fmd):
+                for i, rg in enumerate(fmd.row_groups):
+                    st = rg.columns[0].meta_data.statistics
+                    if mins[i] is None:
+                        st.min = None
+                        st.min_value = None
+                    if maxs[i] is None:
+                        st.max = None
+                        st.max_value = None
+            rewrite_footer(fn, mutate)
         out = api.sorted_partitioned_columns(fastparquet.ParquetFile(fn))
-        really = all(maxs[i] < mins[i + 1] for i in range(n - 1))
+        really = all(x is not None for x in mins + maxs) and all(maxs[i] < mins[i + 1] for i in range(n - 1))
         if ("a" in out) != really:
             return True, "row groups with bounds %r are %sreported as sorted" % (list(zip(mins, maxs)),
                                                                                  "" if "a" in out else "not ")
+        return False, "agrees"
+    finally:
+        shutil.rmtree(d, ignore_errors=True)
+
+
+def h_sorted_columns_filtered(mn0: int, mx0: int, mn1: int, mx1: int, mn2: int, mx2: int,
+                              k0: bool, k1: bool, k2: bool, twice: bool) -> bool:
+    """
+    pre: mn0 <= mx0 and mn1 <= mx1 and mn2 <= mx2
+    post: __return__
+    """
+    # with filters, sortedness is judged over the row groups the filter keeps - and the handle's cached statistics
+    # (what pf.statistics returns afterwards) still describe every row group
+    mins, maxs = [mn0, mn1, mn2], [mx0, mx1, mx2]
+    keep = [i for i, k in enumerate((k0, k1, k2)) if k]
+    pf = _PFs(mins, maxs)
+    saved = (api.statistics, api.filter_row_groups)
+    api.statistics = lambda h: {"min": {"a": list(mins)}, "max": {"a": list(maxs)}}
+    api.filter_row_groups = lambda h, filters, as_idx=False: list(keep)        # contract: indices of kept groups (C05)
+    try:
+        out = api.sorted_partitioned_columns(pf, filters=[("g", "in", keep)])
+        if twice:
+            out = api.sorted_partitioned_columns(pf, filters=[("g", "in", keep)])
+    finally:
+        api.statistics, api.filter_row_groups = saved
+    if pf.statistics != {"min": {"a": mins}, "max": {"a": maxs}}:
+        return False
+    kmins, kmaxs = [mins[i] for i in keep], [maxs[i] for i in keep]
+    really = len(keep) > 0 and all(kmaxs[i] < kmins[i + 1] for i in range(len(keep) - 1))
+    if "a" in out:
+        return really and out["a"] == {"min": kmins, "max": kmaxs}
+    return not really
+
+
+def replay_h_sorted_columns_filtered(mn0, mx0, mn1, mx1, mn2, mx2, k0, k1, k2, twice):
+    import copy, os, shutil, tempfile
+    import pandas as pd
+    import fastparquet
+    mins, maxs = [mn0, mn1, mn2], [mx0, mx1, mx2]
+    keep = [i for i, k in enumerate((k0, k1, k2)) if k]
+    vals, grp, offs = [], [], []
+    for i, (a, b) in enumerate(zip(mins, maxs)):
+        offs.append(len(vals))
+        vals += [a, b]
+        grp += [i, i]
+    d = tempfile.mkdtemp(prefix="c04-")
+    try:
+        fn = os.path.join(d, "t.parq")
+        fastparquet.write(fn, pd.DataFrame({"a": vals, "g": grp}), row_group_offsets=offs, stats=True)
+        pf = fastparquet.ParquetFile(fn)
+        before = copy.deepcopy(pf.statistics)
+        filters = [("g", "in", keep)]
+        try:
+            out = api.sorted_partitioned_columns(pf, filters=filters)
+            if twice:
+                out = api.sorted_partitioned_columns(pf, filters=filters)
+        except Exception as ex:
+            return True, "sorted_partitioned_columns(filters=%r) raised %r" % (filters, ex)
+        after = pf.statistics
+        if after != before:
+            return True, "pf.statistics changed after sorted_partitioned_columns(filters=%r): min of a %r -> %r" % (
+                filters, before["min"]["a"], after["min"]["a"])
+        kmins, kmaxs = [mins[i] for i in keep], [maxs[i] for i in keep]
+        really = len(keep) > 0 and all(kmaxs[i] < kmins[i + 1] for i in range(len(keep) - 1))
+        if ("a" in out) != really:
+            return True, "kept row groups with bounds %r are %sreported as sorted" % (
+                list(zip(kmins, kmaxs)), "" if "a" in out else "not ")
         return False, "agrees"
     finally:
         shutil.rmtree(d, ignore_errors=True)
